@@ -330,6 +330,35 @@ def run(tier, seed):
             else:
                 src_e, want_v = f"{c1} ? {c2} ? {a} : {b} : {d}", ((a if c2 else b) if c1 else d)
             chain.append((f"q{len(chain)}", f"@db {src_e}\n", want_v))
+    # a binary operator directly followed by a prefix operator, written with no blank anywhere
+    # (where the two spellings cannot merge into a longer symbol)
+    BS = {"lor": "||", "land": "&&", "bor": "|", "bxor": "^", "band": "&", "eq": "==", "ne": "!=", "lt": "<", "le": "<=", "gt": ">", "ge": ">=",
+          "shl": "<<", "shr": ">>", "shll": "<<<", "shrl": ">>>", "add": "+", "sub": "-", "mul": "*", "div": "/", "rem": "%"}
+    US = {"neg": "-", "pos": "+", "lnot": "!", "bnot": "~", "lo": "<", "hi": ">"}
+    symbols = set(BS.values()) | {"<", ">", "!", "~", "=", "(", ")"}
+    adj = []
+    for bo, bs in BS.items():
+        for uo, us in US.items():
+            if any(sy.startswith(bs + us[0]) for sy in symbols) or (bs == "%" and us in "01"):
+                continue
+            for a, b in ((8, 2), (0x1234, 0x105), (7, 3), (0x80000000, 0x0104)):
+                adj.append((bo, uo, a, b, f"${a:x}{bs}{us}${b:x}"))
+    adj_lines = [f"a{k}\tasm\t6502\t/\t/m.asm\t-\t/m.asm=" + C.hexs(f"@dw ({t}) & $ffff, (({t}) >> 16) & $ffff\n") for k, (bo, uo, a, b, t) in enumerate(adj)]
+    adj_spec = [f"a{k}\texpr\t-\t{' '.join(nodes(('bin', bo, ('num', a), ('un', uo, ('num', b)))))}\t{prefix(('bin', bo, ('num', a), ('un', uo, ('num', b))))}\t-" for k, (bo, uo, a, b, t) in enumerate(adj)]
+    aimpl, aspec = C.run_impl(adj_lines), C.run_model(adj_spec)
+    for k, (bo, uo, a, b, t) in enumerate(adj):
+        i = aimpl.get(f"a{k}", ["MISSING"])
+        parts = [p_.strip("\t") for p_ in "\t".join(aspec.get(f"a{k}", ["?"])).split("|")]
+        sres = parts[1].split("\t") if len(parts) > 1 else ["?"]
+        chk.evaluations += 1
+        chk.distinct.add(("adjacent", bo, uo))
+        if sres[0] == "OK":
+            v = int(sres[1]) & 0xFFFFFFFF
+            want = bytes([v & 0xFF, (v >> 8) & 0xFF, (v >> 16) & 0xFF, (v >> 24) & 0xFF]).hex()
+            if i[0] != "OK" or i[1] != want:
+                chk.violation(f"e2e:adjacent:{bo}:{uo}", f"`{t}` (no blanks) gives {i[:2]}, C gives bytes {want}", {"mode": "asm", "arch": "6502", "source": t, "impl": i[:2]})
+        elif sres[0] == "NONE" and i[0] not in ("ERR",):
+            chk.violation(f"e2e:adjacent:{bo}:{uo}", f"`{t}` (no blanks) has no value in C (division by zero) but gives {i[:2]}", {"mode": "asm", "arch": "6502", "source": t, "impl": i[:2]})
     impl3 = C.run_impl([f"{cid}\tasm\t6502\t/\t/m.asm\t-\t/m.asm={C.hexs(src)}" for cid, src, w in chain])
     for cid, src, w in chain:
         i = impl3.get(cid, ["MISSING"])
